@@ -240,7 +240,15 @@ def runCfg (t : Array String) : String :=
   let st := PV.CFG.build k (tokI t[1]!).toNat (tokI t[2]!).toNat body
   let fs := (PV.CFG.findings st).toArray.qsort (fun a b => a.s < b.s || (a.s == b.s && a.e < b.e))
   let fstr := joinWith ";" (fs.toList.map fun f => s!"{f.s}-{f.e}-{if f.critical then "c" else "w"}")
-  s!"{PV.CFG.complexity st}|{fstr}|{natsSorted (PV.CFG.liveLines st)}|{natsSorted (PV.CFG.deadLines st)}"
+  -- last field: the WHOLE graph of the mirror — per block id: the statements it holds (start-end, in insertion order) and its out-edges (target/type, in the
+  -- order they were added) — compared with the real builder's graph block by block (ids are allocated in the same order on both sides)
+  let ety (e : PV.CFG.ETy) : String := match e with
+    | .normal => "normal" | .condT => "true" | .condF => "false" | .exc => "exception" | .loop => "loop" | .brk => "break" | .cont => "continue" | .ret => "return"
+  let blocks := (List.range st.next).map fun b =>
+    let ss := (st.stmts.reverse.filter (fun r => r.blk == b)).map fun r => s!"{r.s}-{r.e}"
+    let es := (st.edges.reverse.filter (fun x => x.1 == b)).map fun x => s!"{x.2.1}/{ety x.2.2}"
+    s!"{b}:{joinWith "," ss}:{joinWith "," es}"
+  s!"{PV.CFG.complexity st}|{fstr}|{natsSorted (PV.CFG.liveLines st)}|{natsSorted (PV.CFG.deadLines st)}|{joinWith ";" blocks}"
 
 def hex16 (f : Float) : String :=
   let u := f.toBits.toNat
